@@ -1207,7 +1207,7 @@ def minimise(athlib, programs, spec, accepted, vclass, step_cap, epilogue=None):
 TIERS = {
     # scenarios, schedules per scenario, wall cap for the pool
     'quick': {'scenarios': 1800, 'k': 24, 'wall': 1200, 'det': 24, 'sweep_every': 60, 'sweep_cap': 400},
-    'thorough': {'scenarios': 24000, 'k': 32, 'wall': 7200, 'det': 192, 'sweep_every': 24, 'sweep_cap': 1200},
+    'thorough': {'scenarios': 24000, 'k': 32, 'wall': 14400, 'det': 192, 'sweep_every': 24, 'sweep_cap': 1200},
 }
 
 
